@@ -96,6 +96,7 @@ type runCtx struct {
 	outcome   string
 	state     string
 
+	prop        string     // property the run is for (a scenario may serve several)
 	passThrough bool       // auxiliary -race mode: no scheduling, yields are Gosched
 	mu          sync.Mutex // counters/violations may be touched from several goroutines in that mode
 }
@@ -202,7 +203,7 @@ func TestVerifWorker(t *testing.T) {
 		}
 		emit(&runResult{T: "start", Seed: seed, Index: i})
 		c := &runCtx{t: t, seed: seed, rng: zsim.NewRng(zsim.Mix(seed, 11)), schedSeed: zsim.Mix(seed, 22),
-			replay: j.Replay, params: j.Params, tier: j.Tier, counters: map[string]int{}}
+			replay: j.Replay, params: j.Params, tier: j.Tier, counters: map[string]int{}, prop: j.Property}
 		res := &runResult{T: "done", Seed: seed, Index: i}
 		runOne(sc, c, res)
 		res.Viol = c.viol
